@@ -47,10 +47,27 @@ def main():
             result["demo_without"] = rc0
         rc, out = sh("patch -p1 < {}".format(patch), cwd=copy)
         if rc != 0:
-            print("PATCH FAILED", out)
-            result["patch"] = "failed"
-            print(json.dumps(result))
-            return
+            # the tree has moved on under this change (a later fix touched the same lines): evaluate it on the commit it applies to
+            meta = os.path.join(d, "meta.json")
+            base = json.load(open(meta)).get("applies_to_repo_commit") if os.path.exists(meta) else None
+            if not base:
+                print("PATCH FAILED", out)
+                result["patch"] = "failed"
+                print(json.dumps(result))
+                return
+            shutil.rmtree(copy)
+            os.makedirs(copy)
+            sh("git -C /repo archive {} | tar -x -C {}".format(base, copy))
+            if os.path.exists(demo):
+                shutil.copy(demo, os.path.join(copy, "demo.py"))
+            rc, out = sh("patch -p1 < {}".format(patch), cwd=copy)
+            result["evaluated_on"] = base
+            print("patch does not apply to HEAD; evaluated on /repo commit {} (checks may also report defects repaired since)".format(base))
+            if rc != 0:
+                print("PATCH FAILED", out)
+                result["patch"] = "failed"
+                print(json.dumps(result))
+                return
         rc, out = sh("{} -m pytest -q -p no:cacheprovider 2>&1 | tail -1".format(PY), cwd=copy)
         result["suite"] = out.strip()
         if os.path.exists(demo):
